@@ -28,7 +28,7 @@ func c03(c *core.Check) {
 		"(2) SHAPE: for every rule the regular over-approximation of its nodes' child-token sequences is built from the tree-construction semantics read off tokens32.AST (empty tokens are dropped, so nullable children are optional; predicates add nothing; captures add a PegText node), and every function of the tree walker in parser.go is abstractly interpreted on go/ssa: a *node32 value is a set of cursors (parent rule, automaton state, current rule) or nil; .up/.next step the automata, comparisons with rule constants and nil refine on branches, phis join, calls are analysed per abstract argument (memoised, fixpoint over recursion), the error result of a callee is correlated with its node result. Obligation: no field access through a *node32 whose cursor set contains nil. " +
 		"(3) every `for …; n != nil; …` loop over nodes advances by .next in its post statement (the child list is finite, so the walk terminates). " +
 		"(4) the four implementations of implicit field ids (parseStruct, parseUnion, parseException inline and addField for arguments/throws) are alpha-equivalent (compared with each other) and have the shape `previous+1, first = 1`; the implicit enum value is `0 if first else previous+1`. " +
-		"(5) where captures nest (DoubleConstant contains the IntConstant of its exponent) the text extractor takes the outer capture whole (go/cfg of pegText). NOT decided: faithfulness of the extracted text otherwise, layout independence, the index arithmetic inside pegText beyond the offset-0 fact, the 64 KiB time bound (only termination)."
+		"(6) coverage: for every structured child kind R (a walker function starts with checkrule(node, ruleR)) that the walker processes inside a parent P, every transition of P's child automaton labelled R is handed to that function in some calling context — a position where the grammar admits an R that no walker path consumes is text that silently never reaches the AST. (5) where captures nest (DoubleConstant contains the IntConstant of its exponent) the text extractor takes the outer capture whole (go/cfg of pegText). NOT decided: faithfulness of the extracted text otherwise, layout independence, the index arithmetic inside pegText beyond the offset-0 fact, the 64 KiB time bound (only termination)."
 	c.RuleText = "one obligation per grammar fact, per dereference site of the walker (grouped per function), per node loop, per sibling pair"
 	c.Assume = []string{"the generated recogniser implements the grammar in its own rule comments and restores the token list after predicates and failed alternatives (pointlander/peg semantics; the generator is not installed)",
 		"go/ssa faithfully represents parser.go"}
@@ -136,7 +136,7 @@ func c03shape(c *core.Check, g *peg.Grammar) {
 		c.Unknown("anchor", "parser", "", "package missing")
 		return
 	}
-	a := &shapeAnalysis{c: c, dfa: g.Children(), ruleOf: map[int64]string{}, pkg: pkg, memo: map[string]*shapeSummary{}, viol: map[string]string{}, derefs: map[string]bool{}, tops: map[string]bool{}}
+	a := &shapeAnalysis{c: c, dfa: g.Children(), ruleOf: map[int64]string{}, pkg: pkg, memo: map[string]*shapeSummary{}, viol: map[string]string{}, derefs: map[string]bool{}, tops: map[string]bool{}, consumed: map[transition]map[string]bool{}}
 	a.dfa["<root>"] = &peg.ChildDFA{Rule: "<root>", Trans: []map[string]int{{}}, Accept: []bool{true}}
 	sc := prog.Pkg("parser").Types.Scope()
 	for _, n := range sc.Names() {
@@ -221,6 +221,7 @@ func c03shape(c *core.Check, g *peg.Grammar) {
 			c.OK("walker-nil-safe", key, sites[0][strings.Index(sites[0], "@")+1:], fmt.Sprintf("%d dereference site(s): no absent node can reach them for any parse tree the grammar admits", len(sites)))
 		}
 	}
+	c03coverage(c, a)
 	c.Analysed["walker_dereference_sites"] = total
 	c.Analysed["walker_contexts"] = len(a.memo)
 	if len(a.tops) > 0 {
@@ -491,4 +492,102 @@ func c03nested(c *core.Check, g *peg.Grammar) {
 	c.Decide(bad == "", "capture-taken-whole", key, c.Prog.Rel(fd.Pos()),
 		fmt.Sprintf("captures nest in %v; pegText descends only into nodes that are not captures, so a capture's text is taken whole", nested),
 		fmt.Sprintf("captures nest in %v but %s: the inner capture's text is returned instead of the whole (an exponent double `1e5` is read as `5`)", nested, bad))
+}
+
+// c03coverage: the walker must visit what the grammar can produce. A rule R is "structured" when a walker function F_R
+// starts with checkrule(node, ruleR). If children of kind R of a parent P are handed to F_R anywhere, then every grammar
+// transition of P's child automaton that is labelled R must be handed to F_R in some context: a transition that is never
+// consumed is a position where the grammar admits an R (annotations after an explicit enum value, a default after a field
+// name, …) that the AST silently loses.
+func c03coverage(c *core.Check, a *shapeAnalysis) {
+	pk := c.Prog.Pkg("parser")
+	info := pk.TypesInfo
+	consumer := map[string]string{} // rule -> function
+	for _, f := range pk.Syntax {
+		for _, d := range f.Decls {
+			fd, ok := d.(*ast.FuncDecl)
+			if !ok || fd.Body == nil {
+				continue
+			}
+			for _, call := range rules.Calls(fd.Body, false) {
+				if fn := rules.Callee(info, call); fn != nil && fn.Name() == "checkrule" && len(call.Args) == 2 {
+					if id, ok := call.Args[1].(*ast.Ident); ok && strings.HasPrefix(id.Name, "rule") {
+						consumer[strings.TrimPrefix(id.Name, "rule")] = fd.Name.Name
+					}
+					break
+				}
+			}
+		}
+	}
+	c.Analysed["walker_structured_rules"] = len(consumer)
+	// (parent, child) pairs the walker processes at all
+	handled := map[[2]string]bool{}
+	for t, fns := range a.consumed {
+		if f, ok := consumer[t.Child]; ok && fns[f] {
+			handled[[2]string{t.Parent, t.Child}] = true
+		}
+	}
+	var parents []string
+	for p := range a.dfa {
+		parents = append(parents, p)
+	}
+	sort.Strings(parents)
+	for _, p := range parents {
+		d := a.dfa[p]
+		byChild := map[string][]int{}
+		for s, tr := range d.Trans {
+			for tok := range tr {
+				byChild[tok] = append(byChild[tok], s)
+			}
+		}
+		var kids []string
+		for k := range byChild {
+			kids = append(kids, k)
+		}
+		sort.Strings(kids)
+		for _, child := range kids {
+			f, ok := consumer[child]
+			if !ok || !handled[[2]string{p, child}] {
+				continue
+			}
+			froms := byChild[child]
+			sort.Ints(froms)
+			var missing []int
+			for _, s := range froms {
+				if !a.consumed[transition{p, s, child}][f] {
+					missing = append(missing, s)
+				}
+			}
+			key := fmt.Sprintf("parser.%s/%s in %s", f, child, p)
+			c.Decide(len(missing) == 0, "walker-covers-grammar", key, "parser/parser.go",
+				fmt.Sprintf("all %d positions of a %s child in a %s node reach %s", len(froms), child, p, f),
+				fmt.Sprintf("%s children of a %s node are handed to %s at some positions but not at %d of the %d positions the grammar allows (after %s): what is written there never reaches the AST", child, p, f, len(missing), len(froms), strings.Join(describeStates(d, missing), "; ")))
+		}
+	}
+	c.Min("walker-covers-grammar", 15)
+}
+
+// describeStates names automaton states by the child kinds that lead into them.
+func describeStates(d *peg.ChildDFA, states []int) []string {
+	var out []string
+	for _, s := range states {
+		in := map[string]bool{}
+		for _, tr := range d.Trans {
+			for tok, dst := range tr {
+				if dst == s {
+					in[tok] = true
+				}
+			}
+		}
+		var ks []string
+		for k := range in {
+			ks = append(ks, k)
+		}
+		sort.Strings(ks)
+		if len(ks) == 0 {
+			ks = []string{"the start of the node"}
+		}
+		out = append(out, "a "+strings.Join(ks, "/"))
+	}
+	return out
 }
